@@ -125,7 +125,7 @@ Definition val_py_eq (a b: val) : option bool :=
   match a, b with
   | VBool x, VBool y => Some (Bool.eqb x y)
   | VInt x, VInt y => Some (Z.eqb x y)
-  | VBits x, VBits y => Some (N.eqb (bits_to_N 0 x) (bits_to_N 0 y))  (* SizedInteger compares as int *)
+  | VBits x, VBits y => Some (list_eqb Bool.eqb x y)     (* BitString.__eq__: same integer and same length *)
   | VOcts x, VOcts y => Some (bytes_eqb x y)
   | VChars x, VChars y => Some (bytes_eqb (concat x) (concat y))
   | VChars x, VOcts y | VOcts y, VChars x => Some (bytes_eqb (concat x) y)
